@@ -199,10 +199,14 @@ def run_unit(name, tier="quick", rlimit=None, smt_seed=None):
             lines = [(sp["line_start"], sp.get("label") or "", sp.get("is_primary")) for sp in d.get("spans", []) if sp["file_name"].endswith(f"{name}.rs")]
             hit_fn = None
             clause = None
+            is_canary = False
             for (ln, label, prim) in lines:
                 for (a, b, ident) in regions:
                     if a <= ln <= b and ident.count("|") == 3:
                         u_, q, kind, idx = ident.split("|")
+                        if kind == "canary":
+                            is_canary = True
+                            continue
                         hit_fn = q
                         if kind in ("header", "loop") :
                             clause = (q, kind, int(idx), ln - a - 1)
@@ -210,6 +214,8 @@ def run_unit(name, tier="quick", rlimit=None, smt_seed=None):
                     for q, (a, b) in franges.items():
                         if a <= ln <= b:
                             hit_fn = q
+            if is_canary and clause is None:
+                continue  # the expected failure of a vacuity canary
             if hit_fn is None:
                 unmapped.append(d)
             else:
@@ -500,7 +506,10 @@ def decide(prop, tier, seed, args):
             print(f"WITNESS {json.dumps(witness['witness'])[:600]}")
         print(f"VIOLATION property={prop} replay={rp}" + ("" if has_w else " no-failing-input-found"))
         return E.EXIT_VIOLATION
-    if undecided_units or unstable or ledger_bad:
+    bounded_broken = bool(bounded and (bounded.get("error") or any(e.get("error") for e in bounded.get("engines", []))))
+    if undecided_units or unstable or ledger_bad or bounded_broken:
+        if bounded_broken:
+            print(f"UNDECIDED property={prop} reason=bounded-engine-failed " + json.dumps(bounded)[:1500])
         for r in undecided_units:
             print(f"UNDECIDED property={prop} unit={r['unit']} reason={r['reason']}")
             if r.get("detail"):
